@@ -70,6 +70,11 @@ def add_subs(rng, c, stall=False):
         ops.append(o)
         if o["op"] == "fail":
             continue                          # stays glued to the ingesting op that follows
+        if o.get("ctrfail") and o["n"] in subs:
+            subs[o["n"]] = set()                 # the step reopens the leaseholder's kv layer
+            if rng.random() < 0.7:
+                ops.append(sub(o["n"]))
+            continue
         if o["op"] == "restart" and o["n"] in subs:
             subs[o["n"]] = set()
             if rng.random() < 0.5:
@@ -125,6 +130,7 @@ def gen_case(rng):
     else:
         c = K.gen_D(rng)
     fam = c["fam"]
+    c = K.add_ctrfaults(rng, c, p=0.25)
     c = K.add_faults(rng, c, p=0.3)
     c = K.add_cancels(rng, c, p=0.4)
     c = add_subs(rng, c, stall=rng.random() < 0.14)
